@@ -43,7 +43,7 @@ func (run *FuncRun) pureEnv(pkg string, tsub map[string]types.Type) *CEnv {
 		run.declare("alloc@0", "(declare-const alloc@0 Int)")
 		run.entry = sn
 	}
-	return &CEnv{run: run, cur: snapReader{sn, run}, curAlloc: sn.alloc, old: sn, vars: map[string]CVal{}, pkg: pkg, tsubst: tsub, seqBinders: true}
+	return &CEnv{run: run, cur: snapReader{sn, run, nil}, curAlloc: sn.alloc, old: sn, vars: map[string]CVal{}, pkg: pkg, tsubst: tsub, seqBinders: true}
 }
 
 // finalize emits ghost definitions and the axioms/lemmas that mention the
@@ -169,7 +169,7 @@ func mentions(e Expr, name string) bool {
 
 // LemmaRun generates the proof obligations of one lemma.
 func (eng *Engine) LemmaRun(ax *Axiom) (run *FuncRun) {
-	run = &FuncRun{eng: eng, key: "lemma:" + ax.Name, decls: map[string]string{}, compSorts: map[string]Sort{}, epochAlloc: map[int]Term{},
+	run = &FuncRun{eng: eng, key: "lemma:" + ax.Name, decls: map[string]string{}, compSorts: map[string]Sort{}, epochInfo: map[int]*epochInfo{},
 		unknownCalls: map[string]bool{}, usedContracts: map[string]bool{}, usedExternals: map[string]bool{}, usedAxioms: map[string]bool{}}
 	defer func() {
 		if r := recover(); r != nil {
